@@ -36,6 +36,10 @@ TRUSTED = [
     "fx = gx = true); fx = false / gx = false are the respective unchanged tests and are refuted",
 ]
 ASSUMES = [
+    "processor level: after (load_circuit, load_circuit, ...) on one shipped processor, processor.pulses (what set_coeffs/set_tlist stored), "
+    "get_full_tlist and the row count of get_full_coeffs are compared with the history-free model and oracle of the LAST loaded circuit, "
+    "including pulse-free loads (no gate / GLOBALPHASE only), which must leave no non-zero channel; the merge of the channels onto a common "
+    "grid (get_full_coeffs values) belongs to C14",
     "compile() is a function of its arguments: the model is history-free, and the harness checks that on histories of 2-4 compile() calls "
     "on one compiler object (same circuit under ASAP and ALAP in either order, other circuits and None/False in between); "
     "schedule_mode ranges over the documented values None, False (both: sequential), 'ASAP', 'ALAP'",
@@ -123,6 +127,96 @@ def _shipped(case):
     gates = [_mk_gate(g) for g in case["gates"]]
     args = {"shape": case.get("shape", "rectangular"), "num_samples": case.get("num_samples")}
     return comp, gates, args
+
+
+def _fresh_shipped_compiler(dev, proc):
+    from qutip_qip.compiler import SpinChainCompiler, CavityQEDCompiler, SCQubitsCompiler
+    if dev == "spinchain":
+        return SpinChainCompiler(proc.num_qubits, proc.params, setup="linear")
+    if dev == "circular":
+        return SpinChainCompiler(proc.num_qubits, proc.params, setup="circular")
+    if dev == "cavityqed":
+        return CavityQEDCompiler(proc.num_qubits, proc.params, global_phase=0.0)
+    return SCQubitsCompiler(proc.num_qubits, proc.params)
+
+
+def _new_processor(dev, nq):
+    from qutip_qip.device import LinearSpinChain, CircularSpinChain, DispersiveCavityQED, SCQubits
+    cls = {"spinchain": LinearSpinChain, "circular": CircularSpinChain,
+           "cavityqed": DispersiveCavityQED, "scqubits": SCQubits}[dev]
+    return cls(nq)
+
+
+def run_processor_load(proc, dev, load):
+    """One Processor.load_circuit on the (reused) processor `proc`, observed at processor.pulses
+       (what set_coeffs / set_tlist stored), get_full_tlist and get_full_coeffs.
+       The expectation is history-free: the instruction list of THIS circuit (transpiled by the processor, compiled
+       gate by gate with a fresh compiler) and independently computed start times."""
+    from qutip_qip.circuit import QubitCircuit
+    mode = load.get("mode")
+    res = {"specs": None, "starts": None, "order": None}
+    qc = QubitCircuit(proc.num_qubits)
+    for g in load["gates"]:
+        qc.add_gate(g["name"], targets=g.get("targets"), controls=g.get("controls"), arg_value=g.get("arg"))
+    try:
+        native = proc.transpile(qc)
+        comp2 = _fresh_shipped_compiler(dev, proc)
+        if load.get("num_samples"):
+            comp2.args["num_samples"] = load["num_samples"]
+        ins = []
+        for g in native.gates:
+            r = comp2.gate_compiler[g.name](g, dict(comp2.args))
+            if r is not None:
+                ins += r
+        specs = [_spec_of_instruction(i) for i in ins]
+        res["specs"] = specs
+        if ins:
+            if mode:
+                from qutip_qip.compiler import Scheduler
+                starts = [float(x) for x in Scheduler(mode).schedule(ins)]
+                order = [int(i) for i in np.argsort(starts)]
+            else:
+                starts = [0.0]
+                for sp in specs[:-1]:
+                    starts.append(_duration(sp) + starts[-1])
+                order = list(range(len(specs)))
+            res["starts"], res["order"] = starts, order
+    except Exception as e:
+        res["aux_error"] = repr(e)[:200]
+    try:
+        if load.get("num_samples"):
+            # a compiler object handed to load_circuit (SC qubits: fewer samples per pulse than the default 101)
+            comp = _fresh_shipped_compiler(dev, proc)
+            comp.args["num_samples"] = load["num_samples"]
+            proc.load_circuit(qc, schedule_mode=mode, compiler=comp)
+        else:
+            proc.load_circuit(qc, schedule_mode=mode)
+        m = {}
+        for pulse in proc.pulses:
+            if pulse.tlist is None and pulse.coeff is None:
+                continue
+            m[str(pulse.label)] = ([float(x) for x in np.asarray(pulse.tlist).ravel()],
+                                   [float(x) for x in np.asarray(pulse.coeff).ravel()])
+        res["out"] = {"map": m}
+        # the merged views must be consistent with the stored pulses
+        full = proc.get_full_tlist()
+        extra = []
+        if (full is None) != (not m):
+            extra.append("get_full_tlist() is %s although %d pulses are stored" % ("None" if full is None else "a grid", len(m)))
+        if full is not None and m:
+            end = max(v[0][-1] for v in m.values())
+            if full[0] != 0.0 or not _close(full[-1], end):
+                extra.append("get_full_tlist() spans [%r, %r], pulses end at %r" % (float(full[0]), float(full[-1]), end))
+            try:
+                fc = proc.get_full_coeffs(full)
+                if np.asarray(fc).shape[0] != len(proc.pulses):
+                    extra.append("get_full_coeffs has %d rows for %d pulses" % (np.asarray(fc).shape[0], len(proc.pulses)))
+            except Exception:
+                pass
+        res["observe"] = extra
+    except Exception as e:
+        res["out"] = {"rejected": repr(e)[:200]}
+    return res
 
 
 def _spec_of_instruction(ins):
@@ -254,18 +348,24 @@ HEADER = ("From QV Require Import Model.Concat.\nFrom Coq Require Import List QA
 
 
 def run_model(terms, tag):
-    """terms: list of Coq terms; returns list of parsed values"""
+    """terms: list of Coq terms; returns list of parsed values (same order).
+       The terms are dealt round-robin to the files so that the long ones (101-sample pulses) are spread evenly."""
+    if not terms:
+        return []
+    nfiles = max(1, min(32, (len(terms) + 79) // 80))
     files = []
-    per = 150
-    for k in range(0, len(terms), per):
-        body = HEADER + "\n".join(f"Eval vm_compute in {t}." for t in terms[k:k + per])
-        files.append((f"c12_{tag}_{k // per}", body))
+    for k in range(nfiles):
+        body = HEADER + "\n".join(f"Eval vm_compute in {t}." for t in terms[k::nfiles])
+        files.append((f"c12_{tag}_{k}", body))
     outs = coq_eval_many(files)
-    vals = []
-    for name, _ in files:
-        vals += parse_evals(outs[name])
-    if len(vals) != len(terms):
-        raise Broken("coq-eval:c12", f"{len(vals)} values for {len(terms)} terms")
+    vals = [None] * len(terms)
+    for k, (name, _) in enumerate(files):
+        got = parse_evals(outs[name])
+        idx = list(range(k, len(terms), nfiles))
+        if len(got) != len(idx):
+            raise Broken("coq-eval:c12", f"{len(got)} values for {len(idx)} terms in {name}")
+        for i, v in zip(idx, got):
+            vals[i] = v
     return vals
 
 
@@ -658,6 +758,26 @@ def gen_case(rng, flavor, big=False, mode="random"):
         gates = [g for g in gates if not any(p[0] == ch or p[0] == "g" for p in g["pulses"])][:3]
         gates = gates + [a, i, b]
         mode = None
+    if flavor == "cycle":
+        # per-qubit chains of non-commuting gates (alternating names), listed qubit after qubit: the start times by
+        # list position look like [0, a, a+b, 0, c, 0, d, ...], whose time order is a permutation with cycles of
+        # length >= 3; every instruction has its own duration and amplitude
+        nq = rng.randint(2, 4)
+        gates = []
+        used = set()
+        for q in range(nq):
+            for j in range(rng.randint(1, 3)):
+                while True:
+                    d = float(rng.choice([1, 3, 5, 7])) * 2.0 ** rng.randint(-3, 4)
+                    if d not in used:
+                        used.add(d)
+                        break
+                amp = float(len(gates) + 1) * rng.choice([1.0, -1.0, 0.5])
+                gates.append({"name": "G%d" % (j % 2), "targets": [q], "controls": None,
+                              "tl": ["scalar", d], "pulses": [["x%d" % q, amp]]})
+        if rng.random() < 0.5:
+            gates.reverse()
+        return {"kind": "synthetic", "mode": rng.choice(["ASAP", "ALAP"]), "nq": nq, "gates": gates, "flavor": flavor}
     if flavor in ("resgap", "resgap_below"):
         # a gap just above (2^-40..2^-45 of the schedule length) or below (2^-47..2^-50) the time resolution
         # 1e-14 ~ 2^-46.5 of the repaired idle-gap test; all times are exact in binary64
@@ -791,6 +911,54 @@ def gen_history(rng):
     return {"kind": "history", "steps": steps, "flavor": "history"}
 
 
+def gen_processor(rng):
+    """(load, load, [load, load]) on one shipped processor, with pulse-free circuits (no gate / GLOBALPHASE only)
+       after circuits with pulses"""
+    dev = rng.choice(["spinchain", "circular", "cavityqed", "cavityqed", "scqubits"])
+    nq = 3
+
+    def circuit(kind):
+        if kind == "empty":
+            return []
+        if kind == "phase":
+            return [{"name": "GLOBALPHASE", "targets": None, "controls": None, "arg": rng.choice([0.5, 1.0, -0.25]) * 3.141592653589793}
+                    for _ in range(rng.randint(1, 2))]
+        gates = []
+        for _ in range(rng.randint(1, 4)):
+            if dev == "scqubits":
+                name = rng.choice(["RX", "RY", "CNOT"])
+            else:
+                name = rng.choice(["RX", "RZ", "ISWAP", "SQRTISWAP"])
+            arg = rng.choice([0.5, 1.0, 1.5, 0.25, -0.75]) * 3.141592653589793
+            if name in ("RX", "RY", "RZ"):
+                gates.append({"name": name, "targets": [rng.randrange(nq)], "controls": None, "arg": arg})
+            elif name == "CNOT":
+                a = rng.randrange(nq - 1)
+                t, c = rng.choice([(a, a + 1), (a + 1, a)])
+                gates.append({"name": name, "targets": [t], "controls": [c], "arg": None})
+            else:
+                a = rng.randrange(nq - 1)
+                gates.append({"name": name, "targets": [a, a + 1], "controls": None, "arg": None})
+        if kind == "pulses+phase":
+            gates.insert(rng.randint(0, len(gates)), {"name": "GLOBALPHASE", "targets": None, "controls": None, "arg": 1.0})
+        return gates
+
+    kinds = ["pulses", rng.choice(["empty", "phase"])]
+    r = rng.random()
+    if r < 0.5:
+        kinds.append(rng.choice(["pulses", "pulses+phase"]))
+    if r < 0.25:
+        kinds.append(rng.choice(["empty", "phase", "pulses"]))
+    if rng.random() < 0.15:
+        kinds.insert(0, rng.choice(["empty", "phase"]))
+    loads = [{"gates": circuit(kd), "mode": rng.choice(MODES), "what": kd} for kd in kinds]
+    if dev == "scqubits":
+        ns = rng.choice([5, 8])
+        for ld in loads:
+            ld["num_samples"] = ns
+    return {"kind": "processor", "device": dev, "nq": nq, "loads": loads, "flavor": "processor"}
+
+
 def corpus_cases():
     out = []
     for p in sorted(glob.glob(os.path.join(VERIF, "corpus", "C12", "*.json"))):
@@ -841,6 +1009,33 @@ def judge_steps(case):
     """A case is one compile() call, or a HISTORY {"kind": "history", "steps": [case, ...]}: the calls are made one
        after the other on ONE compiler object; every call is judged against the history-free oracle and model.
        Returns [(step case, real, fails, exact)]."""
+    if case.get("kind") == "processor":
+        # (load, load, ..., observe after each) on ONE processor object
+        proc = _new_processor(case["device"], case.get("nq", 3))
+        out = []
+        for k, load in enumerate(case["loads"]):
+            real = run_processor_load(proc, case["device"], load)
+            specs, starts = real["specs"], real["starts"]
+            fails = []
+            if specs is not None and "rejected" not in real["out"]:
+                if not any(sp["pulses"] for sp in specs):
+                    # pulse-free circuit: no instruction uses any channel, so no channel may carry anything
+                    left = {n: v for n, v in real["out"]["map"].items() if any(c != 0.0 for c in v[1])}
+                    if left:
+                        n0 = sorted(left)[0]
+                        fails.append(dict(kind="stale-pulses", channel=n0, got=sorted(left),
+                                          want="no non-zero channel: the loaded circuit drives no pulse"))
+                elif starts is not None and well_formed(specs):
+                    fails = oracle(specs, starts, real["out"], False)
+            elif specs is not None and well_formed(specs):
+                fails = [dict(kind="rejected", channel=None, detail=real["out"].get("rejected"))]
+            for msg in real.get("observe", []):
+                fails.append(dict(kind="processor-view", channel=None, detail=msg))
+            for f in fails:
+                f["starts"], f["specs"], f["step"] = starts, specs, k
+            st = dict(load, kind="shipped", device=case["device"])
+            out.append((st, real, fails, False))
+        return out
     if case.get("kind") != "history":
         real, fails, exact = judge(case)
         return [(case, real, fails, exact)]
@@ -906,7 +1101,7 @@ def correspond(ctx):
     n_corpus = len(cases)
     plan = [("discrete", ctx.n(400, 2500)), ("continuous", ctx.n(300, 2000)), ("perqubit", ctx.n(200, 1200)),
             ("mixed", ctx.n(120, 800)), ("ratio", ctx.n(150, 800)), ("lategap", ctx.n(80, 400)),
-            ("resgap", ctx.n(40, 200)), ("resgap_below", ctx.n(20, 100))]
+            ("resgap", ctx.n(40, 200)), ("resgap_below", ctx.n(20, 100)), ("cycle", ctx.n(50, 300))]
     for flavor, n in plan:
         for _ in range(n):
             cases.append(gen_case(rng, flavor, big=ctx.thorough and rng.random() < 0.5))
@@ -919,6 +1114,8 @@ def correspond(ctx):
     terms = []
     for _ in range(ctx.n(110, 600)):
         cases.append(gen_history(rng))
+    for _ in range(ctx.n(60, 300)):
+        cases.append(gen_processor(rng))
     steps_all = []
     for whole in cases:
         for k, (st, real, fails, exact) in enumerate(judge_steps(whole)):
@@ -926,8 +1123,10 @@ def correspond(ctx):
     for whole, stepno, case, real, fails, exact in steps_all:
         specs, starts, order = real["specs"], real["starts"], real["order"]
         flavor = whole.get("flavor", "corpus")
-        if whole.get("kind") == "history":
-            corr.tally("history-steps")
+        if whole.get("kind") in ("history", "processor"):
+            corr.tally(whole["kind"] + "-steps")
+            if whole["kind"] == "processor" and specs is not None and not any(sp["pulses"] for sp in specs):
+                corr.tally("processor-pulse-free-loads")
         if specs is None:
             raise Broken("correspondence:C12:instruction-extraction", real.get("aux_error", "?") + " on " + json.dumps(case)[:500])
         if starts is None:
@@ -964,6 +1163,9 @@ def correspond(ctx):
         corr.count(json.dumps(whole, sort_keys=True) + "#%d" % stepno, nontrivial=nontrivial, sample=whole)
         corr.tally("flavor:" + flavor.split(":")[0])
         corr.tally("mode:" + repr(case.get("mode")))
+        od = real.get("order")
+        if od and any(od[od[i]] != i for i in range(len(od))):
+            corr.tally("branch:time-order-non-involutive")
         corr.tally("rejected" if rejected else "accepted")
         for ft in feats:
             corr.tally("branch:" + ft)
@@ -986,11 +1188,13 @@ def search(ctx, broken):
         if isinstance(detail, dict) and isinstance(detail.get("input"), dict):
             cands.append(detail["input"])
     rng = ctx.rng
-    for flavor in ("ratio", "lategap", "resgap", "discrete", "continuous", "perqubit"):
+    for flavor in ("ratio", "lategap", "resgap", "cycle", "discrete", "continuous", "perqubit"):
         for _ in range(ctx.n(150, 800)):
             cands.append(gen_case(rng, flavor))
     for _ in range(ctx.n(150, 600)):
         cands.append(gen_history(rng))
+    for _ in range(ctx.n(60, 300)):
+        cands.append(gen_processor(rng))
     for case in cands:
         try:
             fails = [f for _, _, fs, _ in judge_steps(case) for f in fs]
